@@ -186,6 +186,22 @@ CHECKS = {
              "bundled registry cross-check at scale.",
         design_ref="DESIGN.md section 3, C17",
         note="When several refusals apply to one call the specification gives the set of admissible error kinds."),
+    "C18": dict(
+        technique="TLA+ spec (Serial: three registries with declarative facts, objects with owners, serialisation protocols, cross-registry operations) model-checked with TLC; TLC behaviours replayed on real registries, plus an object / exception catalogue through every protocol",
+        text="TLC checks over all behaviours of up to four operations on {source registry, its deep copy, application registry} - deep-copy the "
+             "registry, assert a fact in one registry (define a unit / edit a group / enable a context / choose a default system), make a "
+             "quantity / unit / measurement (a prefixed unit parsed for the first time included), serialise the last object (pickle / copy / "
+             "deepcopy / tuple), combine two quantities - that serialisation preserves kind and value, unpickling attaches to the application "
+             "registry, copies keep their owner, a fact asserted in one registry moves no other registry and a deep copy starts equal to its "
+             "source. Behaviours of length three are replayed on real registries: after every step the facts exhibited by every existing registry "
+             "(through the direct group, a group using it and a system using that; conversions; base units) must be its own; serialised objects "
+             "must be equal and owned as specified (random pickle protocol); add / mul / lt / le between quantities must raise ValueError exactly "
+             "when the owners differ. A catalogue of every pint.errors class (constructed and as raised by pint), unit containers, quantities over "
+             "int / float / Fraction / Decimal / ndarray magnitudes x units goes through copy, deepcopy, to_tuple / from_tuple and pickle "
+             "protocols 0-5; prefixed units are unpickled into a fresh application registry; the lazy default registry is compared with an "
+             "explicit one in a subprocess.",
+        design_ref="DESIGN.md section 3, C18",
+        note="Quick replays a seeded sample of 1500 of the ~13k behaviours of length three; thorough replays all."),
     "C04": dict(
         technique="TLA+ spec (UnitAlgebra, LinAlg) model-checked with TLC; TLC-generated cases replayed into pint; recorded operations validated by a TLC trace spec",
         text="TLC checks exhaustively (3 names, exponents -2..2 and +-1/2, all pairs, all powers, triples) that the operational model of "
